@@ -329,7 +329,7 @@ class Proj:
                 inh = x.start
                 x = x.parent
             deps = [{"p": tix[id(d[0])], "onstart": bool(d[1]), "gap": int(d[2]), "clone": False, "maxgap": False,
-                     "gaplen": bool(len(d) > 3 and d[3]), "glen": int(d[3] // 3600) if (len(d) > 3 and d[3]) else 0} for d in t.deps]
+                     "gaplen": bool(len(d) > 3 and d[3]), "glen": int(-(-d[3] // self.G)) if (len(d) > 3 and d[3]) else 0} for d in t.deps]      # slots of working time that cover the gap length
             for src, pgap in prec.get(id(t), []):
                 # `a precedes t` is `t depends a` (finish-to-start, with the gap written there): an edge of its own unless the
                 # very same edge is already written on t
@@ -1170,6 +1170,10 @@ def gap_bounds(rng, n):
             deps = [(a, False, G * rng.choice([0, 0, 1])), (b, rng.random() < 0.2, G * rng.choice([8, 24, 30]))]
             if c is not None:
                 deps.append((c, False, G * rng.choice([0, 4, 12])))
+            if rng.random() < 0.4:
+                # a gap in WORKING time (of the project calendar) instead of calendar time, not always whole hours
+                k = rng.randrange(len(deps))
+                deps[k] = (deps[k][0], False, 0, rng.choice([G, 2 * G, 3 * G, 5400, 7200, 9000, 16 * 3600]))
             rng.shuffle(deps)
             p.add_task("t", effort=G * rng.randint(1, 6), alloc=[rng.choice(rs)], deps=deps)
             if rng.random() < 0.5:
@@ -1726,7 +1730,7 @@ def infeasible(rng, n):
             elif x < 0.55 and len(ts) > 1:
                 u = rng.choice([u for u in ts if u is not t])
                 if rng.random() < 0.2:
-                    t.deps.append((u, False, 0, 3600 * rng.choice([4, 40, 400])))      # gaplength (working time)
+                    t.deps.append((u, False, 0, rng.choice([3600 * 4, 3600 * 40, 3600 * 400, 5400, 1800, 9000])))      # gaplength (working time), also not whole hours
                 else:
                     t.deps.append((u, rng.random() < 0.2, rng.choice([0, G, 86400 * 30])))
         if len(ts) >= 2 and rng.random() < 0.4:
